@@ -694,7 +694,7 @@ func (g *G) genesis() *script.Genesis {
 	if g.chance(g.w.longPct * 2) {
 		for _, l := range []string{"L1", "L0"}[:1+g.rng.Intn(2)] {
 			if l == "L1" && g.chance(35) {
-				l = "L5" // shares its first 20 bytes with A0; may buy eFUND (raises through its grantee) — when it is whitelisted itself:
+				l = "L5"          // shares its first 20 bytes with A0; may buy eFUND (raises through its grantee) — when it is whitelisted itself:
 				if g.chance(50) { // … A0's entry must not count for it
 					gs.Ent.WL = append(gs.Ent.WL, l)
 				} else if len(gs.Ent.WL) == 0 || gs.Ent.WL[0] != "A0" {
